@@ -448,12 +448,56 @@ def run_mc_stage(prop, tier, specdir, work):
     return mc_results
 
 
+CARRY_PROPS = {"C02", "C06", "C07", "C12", "C13", "C14"}   # generators that replay the carry-coverage corpus
+CARRY_STORED = os.path.join(VERIF, "corpus", "carry.json")
+CARRY_INFO = {}
+
+
+def carry_corpus(tier, seed, work):
+    """Inputs that drive the carry / borrow / overflow sites of the CURRENT tree's word-level code (bin/carrycov.py):
+    the stored corpus (random + z3, solved once on the pinned tree) plus a fresh one for this tree -- random search
+    at the quick tier, random + time-boxed z3 at the thorough tier.  Inputs only; failure to produce them loses
+    the inputs, nothing else."""
+    fresh = os.path.join(work, "carry_fresh.json")
+    files = [CARRY_STORED] if os.path.exists(CARRY_STORED) else []
+    if not os.path.exists(fresh):
+        budget, zt = (0, 1) if tier != "thorough" else (420, 45)
+        try:
+            r = subprocess.run([os.path.join(VERIF, "bin", "carrycov.py"), "gen", REPO, fresh, "--budget", str(budget),
+                                "--z3-timeout", str(zt), "--workers", str(NCPU), "--seed", str(seed)],
+                               capture_output=True, text=True, timeout=budget + 600)
+            if r.returncode != 0:
+                log("  carry corpus: not generated for this tree (%s)" % (r.stderr or r.stdout)[-300:].strip())
+        except subprocess.TimeoutExpired:
+            log("  carry corpus: generation timed out")
+    if os.path.exists(fresh):
+        try:
+            d = json.load(open(fresh))
+            tot = {k: sum(st[k] for st in d["stats"].values()) for k in ("targets", "by_random", "by_z3", "unreached")}
+            CARRY_INFO.update({"this_tree": tot, "functions_read_from_source": sorted(d["stats"]),
+                               "functions_not_straight_line": ["%s.%s: %s" % (x["Pkg"], x["Func"], x["Reason"]) for x in d["skipped"]]})
+            files.append(fresh)
+        except Exception as e:     # noqa
+            log("  carry corpus: unreadable (%s)" % e)
+    if os.path.exists(CARRY_STORED):
+        try:
+            d = json.load(open(CARRY_STORED))
+            CARRY_INFO["stored_corpus"] = {"entries": len(d["corpus"]), "found_by_z3": sum(1 for e in d["corpus"] if e["how"].startswith("z3"))}
+        except Exception:          # noqa
+            pass
+    return files
+
+
 def record_pass(prop, gname, groups, tier, seed, scale, work, tdir):
     """Build the harness for these file groups, run generator gname, return its summary."""
     race = prop in CONCURRENT_PROPS or gname == "C16"
     binary, accessor = build_harness(work, race=race, groups=groups)
     cmd = [binary, "-prop", gname, "-out", tdir, "-seed", str(seed), "-tier", tier,
            "-shards", str(NCPU * (4 if tier == "thorough" else 1)), "-scale", str(scale)]
+    if gname in CARRY_PROPS:
+        files = carry_corpus(tier, seed, work)
+        if files:
+            cmd += ["-corpus", ",".join(files)]
     if gname == "C16" and prop != "C16":
         cmd += ["-focus", prop]          # the concurrent pass of a sequential property: its own actions only
     env = dict(GOENV)
@@ -758,6 +802,7 @@ def check_trace_property(prop, tier, seed, work, replay=None, scale=1.0):
         "disagreements": len(violations), "known_findings_seen": len(known),
         "inconclusive_foreign_disagreements": len(inconclusive), "machinery_faults": len(machinery),
         "notes": notes,
+        "carry_site_inputs": dict(CARRY_INFO) if CARRY_INFO else None,
         "exhaustive": False,
         "checker_cmd": "java -Xss1g -cp tla2tools.jar:CommunityModules-deps.jar tlc2.TLC -workers 1 -config Trace*.cfg Trace*.tla (VERIF_TRACE=<shard>)",
     }
